@@ -104,12 +104,12 @@ fn with_jtemplate<U: JUser>(name: &str, variant: u32, instance: u32, iters: u32,
     match name {
         "real_ga" => go!(sphere_instance(instance), ga::real_ga::<JS>(
             ga::RealProblemParameters {
-                population_size: [6, 10, 4, 2][v], tournament_size: [2, 3, 4, 2][v], pm: [1.0, 0.5, 0.1, 0.0][v],
+                population_size: [6, 9, 5, 2][v], tournament_size: [2, 3, 4, 2][v], pm: [1.0, 0.5, 0.1, 0.0][v],
                 deviation: [0.1, 1.0, 0.01, 0.5][v], pc: [0.8, 1.0, 0.0, 0.5][v],
             }, LessThanN::iterations(iters))),
         "binary_ga" => go!(onemax_instance(instance), ga::binary_ga::<JO>(
             ga::BinaryProblemParameters {
-                population_size: [6, 10, 4, 2][v], tournament_size: [2, 3, 4, 1][v], rm: [0.1, 0.5, 1.0, 0.0][v],
+                population_size: [6, 9, 5, 2][v], tournament_size: [2, 3, 4, 1][v], rm: [0.1, 0.5, 1.0, 0.0][v],
                 pc: [0.8, 1.0, 0.0, 0.5][v], pm: [1.0, 0.5, 0.0, 1.0][v],
             }, LessThanN::iterations(iters))),
         "real_es" => go!(sphere_instance(instance), es::real_mu_plus_lambda_es::<JS, ()>(
@@ -155,7 +155,7 @@ fn with_jtemplate<U: JUser>(name: &str, variant: u32, instance: u32, iters: u32,
             iwo::RealProblemParameters {
                 initial_population_size: [3, 2, 4, 1][v], max_population_size: [6, 5, 4, 1][v],
                 min_number_of_seeds: [0, 1, 2, 0][v], max_number_of_seeds: [3, 1, 5, 1][v],
-                initial_deviation: [0.01, 0.1, 0.5, 0.1][v], final_deviation: [0.5, 1.0, 0.6, 0.2][v], modulation_index: [3, 1, 2, 1][v],
+                initial_deviation: [0.5, 1.0, 0.6, 0.2][v], final_deviation: [0.01, 0.1, 0.6, 0.0][v], modulation_index: [3, 1, 2, 1][v],
             }, LessThanN::iterations(iters))),
         "real_fa" => go!(sphere_instance(instance), fa::real_fa::<JS>(
             fa::RealProblemParameters { pop_size: [4, 6, 3, 1][v], alpha: [0.25, 0.5, 0.0, 0.0][v], beta: [1.0, 0.5, 0.2, 0.0][v], gamma: [0.01, 1.0, 0.1, 0.0][v], delta: [0.97, 0.9, 1.0, 0.5][v] },
